@@ -42,6 +42,10 @@ inductive CExpr where
   | tern (c a b : CExpr)
   | macro (name : String) (args : List CExpr) (ret : CT) (params : List CT)
   | load (signed : Bool) (width : Nat) (ty : CT)    -- ((T)mem_load_<s|u><w>(EA))
+  -- value-producing side effects ("hybrids")
+  | post (v : String) (ty : CT) (op : String)       -- v++ / v-- on a local variable
+  | call (name : String) (args : List CExpr) (ret : CT) (params : List CT)   -- registered sub-routine
+  | stmtexpr (ty : CT) (v : String) (e : CExpr)     -- ({ T v = e; v; })
 deriving Repr, Inhabited
 
 inductive CStmt where
@@ -53,6 +57,8 @@ inductive CStmt where
   | chain (lhs1 : CExpr) (lhs2 : CExpr) (op2 : String) (e : CExpr)        -- lhs1 = lhs2 op2 e;
   | jump (e : CExpr)
   | skip (what : String)                            -- ";" "{}" "cancel_slot;"
+  | exprstmt (e : CExpr)                            -- e;  (value unused)
+  | ret (e : CExpr)                                 -- return e;  (sub-routine bodies, last statement)
 deriving Repr, Inhabited
 
 /-! ### decoding from S-expressions -/
@@ -87,6 +93,11 @@ def CExpr.ofSexp : Sexp → Option CExpr
       pure (.macro n args ret ps)
   | .list [.atom "load", s, w, t] => do
       let s ← s.asBool?; let w ← w.asNat?; let t ← ctOfSexp t; pure (.load s w t)
+  | .list [.atom "post", .str v, t, .str op] => do let t ← ctOfSexp t; pure (.post v t op)
+  | .list [.atom "call", .str n, .list args, ret, .list params] => do
+      let args ← CExpr.ofSexps args; let ret ← ctOfSexp ret; let ps ← params.mapM ctOfSexp
+      pure (.call n args ret ps)
+  | .list [.atom "stmtexpr", t, .str v, e] => do let t ← ctOfSexp t; let e ← CExpr.ofSexp e; pure (.stmtexpr t v e)
   | _ => none
 def CExpr.ofSexps : List Sexp → Option (List CExpr)
   | [] => some []
@@ -108,6 +119,8 @@ def CStmt.ofSexp : Sexp → Option CStmt
       let l1 ← CExpr.ofSexp l1; let l2 ← CExpr.ofSexp l2; let e ← CExpr.ofSexp e; pure (.chain l1 l2 op2 e)
   | .list [.atom "jump", e] => do let e ← CExpr.ofSexp e; pure (.jump e)
   | .list [.atom "skip", .str w] => some (.skip w)
+  | .list [.atom "exprstmt", e] => do let e ← CExpr.ofSexp e; pure (.exprstmt e)
+  | .list [.atom "ret", e] => do let e ← CExpr.ofSexp e; pure (.ret e)
   | _ => none
 def CStmt.ofSexps : List Sexp → Option (List CStmt)
   | [] => some []
